@@ -260,6 +260,10 @@ class GridSearch:
         for i, job_result in enumerate(
             process_class.run_jobs(jobs, self.number_of_cores)
         ):
+            # a parallel run yields the exception of a failed fit instead of a result
+            if isinstance(job_result, Exception):
+                raise job_result
+
             builder.add(job_result)
             results_list.append(job_result.result_list_row)
             write_results()
